@@ -54,6 +54,7 @@ class Ctx:
         self.signfacts = []                   # (rel, truth) of branch conditions taken
         self.speculative = False              # evaluating proof hints: divisions assert nothing
         self.lookup_only = False              # lazy hints may only re-use existing sqrt symbols
+        self.ufnum = {}                       # numeric meaning of uninterpreted functions (engine validation)
         self.probe_env = None
         self.nosplit = False
         self.notes = []
@@ -1011,15 +1012,15 @@ def cossin(x):
     if not isinstance(x, R):
         x = lift(x)
     if x.ang is None:
-        # general real: give it an angle symbol of its own (memoised structurally)
-        key = ('ang', x.z.sexpr())
+        # general real argument: cos / sin as uninterpreted functions (congruence + unit circle)
+        key = ('ufcs', x.z.sexpr())
         if key not in c.memo:
-            nm = c.fresh('theta')
-            zv = x.z
-            th = angle(nm, numdef=lambda env, zv=zv: numeval(zv, env))
-            c.facts.append(th.z == x.z)
-            c.memo[key] = th
-        x = c.memo[key]
+            cf = c.memo.setdefault('cosf', z3.Function('cosf', z3.RealSort(), z3.RealSort()))
+            sf = c.memo.setdefault('sinf', z3.Function('sinf', z3.RealSort(), z3.RealSort()))
+            C_, S_ = R(cf(x.z)), R(sf(x.z))
+            c.facts.append(C_.z * C_.z + S_.z * S_.z == 1)
+            c.memo[key] = (C_, S_)
+        return c.memo[key]
     syms, const = x.ang
     cs = (1, 0)
     for s in sorted(syms):
@@ -1331,6 +1332,12 @@ def numeval(t, env):
                 return env[e.decl().name()]
             if e.decl().name() == 'exp':
                 return math.exp(ev(ch[0]))
+            if e.decl().name() == 'cosf':
+                return math.cos(ev(ch[0]))
+            if e.decl().name() == 'sinf':
+                return math.sin(ev(ch[0]))
+            if e.decl().name() in env:
+                return env[e.decl().name()](*[ev(c_) for c_ in ch])
             raise KeyError('uninterpreted %s' % e.decl().name())
         if k == z3.Z3_OP_ADD:
             return sum(ev(c) for c in ch)
@@ -1389,6 +1396,7 @@ def numeval(t, env):
 def complete_env(c, env):
     """fill in the dependent symbols (atoms, sqrt, arccos ...) in creation order"""
     env = dict(env)
+    env.update(c.ufnum)
     for nm in c.order:
         if nm not in env and nm in c.numdefs:
             env[nm] = c.numdefs[nm](env)
